@@ -7,7 +7,8 @@ registry.  behave's Gherkin file parser and runner are not on this path (its ste
 Symbolic scalars: the initial value of the chart variable x (unbounded integer, injected through
 interpreter_klass), the event parameter, the wait amount (real; the parsed number is replaced by a
 symbolic one after matching).  Solver-enumerated: the scenario, a sequence of predefined given/when/then
-steps with arguments from pools (existing and missing states, events, variables; true and false assertions).
+steps with arguments from pools (existing and missing states, events, variables holding integers, None and 0;
+true and false assertions; composite steps whose sub-steps wait or send; a notify in the chart).
 Oracle: facts recomputed from a plain second Interpreter fed the same inputs by the harness's own driver;
 a 'then' step must be reported passed iff its fact holds (errors count as not passed).
 """
